@@ -32,8 +32,10 @@ def sh(cmd, cwd=None, env=None, timeout=3000):
 
 
 def main():
-    mdir, sid, pid = sys.argv[1], sys.argv[2], sys.argv[3]
-    extra = sys.argv[4:]
+    args = [a for a in sys.argv[1:] if a != "--checks-only"]
+    checks_only = "--checks-only" in sys.argv      # keep the recorded suite result, redo demo + checks
+    mdir, sid, pid = args[0], args[1], args[2]
+    extra = args[3:]
     wt = tempfile.mkdtemp(prefix="evalwt_", dir="/tmp")
     os.rmdir(wt)
     rc, out = sh(f"git -C /repo worktree add --detach {wt} HEAD")
@@ -51,14 +53,22 @@ def main():
             meta["ran"].append({"cmd": "git apply", "exit": rc, "out": out[-300:]})
             print(json.dumps(meta, indent=1))
             return 2
-        rc, out = sh(f"{PY} -m pytest -q -p no:cacheprovider --timeout=900 tests", cwd=wt, env=env)
-        tail = out.strip().splitlines()[-1] if out.strip() else ""
-        m = re.search(r"(\d+) failed, (\d+) passed", tail)
-        tests_ok = bool(m and m.group(1) == "2" and m.group(2) == "510"
-                        and "test_read_ET_data_with_checkpoints" in out
-                        and "test_read_ET_checkpoints_across_restarts" in out)
-        meta["ran"].append({"cmd": "repository test suite with the change", "summary": tail,
-                            "baseline_unchanged": tests_ok})
+        prev = None
+        if checks_only and os.path.exists(os.path.join(mdir, "meta.json")):
+            pm = json.load(open(os.path.join(mdir, "meta.json")))
+            prev = next((r for r in pm.get("ran", []) if "test suite" in r.get("cmd", "")), None)
+        if prev is not None:
+            tests_ok = bool(prev.get("baseline_unchanged"))
+            meta["ran"].append(prev)
+        else:
+            rc, out = sh(f"{PY} -m pytest -q -p no:cacheprovider --timeout=900 tests", cwd=wt, env=env)
+            tail = out.strip().splitlines()[-1] if out.strip() else ""
+            m = re.search(r"(\d+) failed, (\d+) passed", tail)
+            tests_ok = bool(m and m.group(1) == "2" and m.group(2) == "510"
+                            and "test_read_ET_data_with_checkpoints" in out
+                            and "test_read_ET_checkpoints_across_restarts" in out)
+            meta["ran"].append({"cmd": "repository test suite with the change", "summary": tail,
+                                "baseline_unchanged": tests_ok})
         rc1, out1 = sh(f"{PY} {demo}", cwd=wt, env=env, timeout=1800)
         meta["ran"].append({"cmd": "demo.py with the change", "exit": rc1,
                             "out": out1.strip()[-400:]})
